@@ -143,7 +143,7 @@ func (g *GenCfg) genOp(t *rapid.T) Op {
 		op.N = rapid.SampledFrom([]int{1, 2, 3, 8}).Draw(t, "workers")
 	}
 	switch k {
-	case "grow", "mgrow", "reset", "mreset", "setN", "mupdN", "ins", "set", "rem", "get", "remN", "mset", "mget", "mhas", "mrem", "msetN", "mremN",
+	case "grow", "mgrow", "shrink", "mshrink", "reset", "mreset", "setN", "mupdN", "ins", "set", "rem", "get", "remN", "mset", "mget", "mhas", "mrem", "msetN", "mremN",
 		"badget", "badset", "badins", "badrem", "mbadget", "mbadrem", "mbadhas", "styp", "reattach", "drop":
 		op.P = rapid.Uint64Range(0, 1<<20).Draw(t, "p")
 	}
